@@ -41,12 +41,13 @@ def place(rng, body_lines, def_line, where):
         return def_line + "\n\n" + "\n".join(body_lines) + "\n"
     if where == "bottom":
         return "\n".join(body_lines) + "\n\n" + def_line + "\n"
+    # white space between a container marker and the definition: anything below four columns of indentation
     if where == "quote":
-        return "\n".join(body_lines) + "\n\n> quoted\n>\n> " + def_line + "\n"
+        return "\n".join(body_lines) + "\n\n> quoted\n>\n>" + rng.choice([" ", " ", "\t", "", "  ", "   ", " \t"]) + def_line + "\n"
     if where == "list":
-        return "- item\n\n  " + def_line + "\n\n" + "\n".join(body_lines) + "\n"
+        return "- item\n\n" + rng.choice(["  ", "  ", "   ", "    ", "\t"]) + def_line + "\n\n" + "\n".join(body_lines) + "\n"
     if where == "quote-in-list":
-        return "\n".join(body_lines) + "\n\n- > " + def_line + "\n"
+        return "\n".join(body_lines) + "\n\n- >" + rng.choice([" ", " ", "\t", "", "  "]) + def_line + "\n"
     if where.startswith("deep-"):
         # nested as deep as the nesting limit allows (6 containers): quotes, list items, alternating
         unit = {"deep-quote": ["> "] * 6, "deep-list": ["- "] * 6, "deep-mixed": ["> ", "- "] * 3, "deep-mixed2": ["- ", "> "] * 3}[where]
